@@ -69,7 +69,7 @@ class MaintRunner(core.Hooks):
         if exp:
             self.stats['orders_created'] += 1
             m.queue.append({'target': tname, 'tag': tag, 'need': need, 'info': info})
-            self.exp_records['enter_queue'].append((env.now, tname, real_tag(tag), info))
+            self.exp_records['enter_queue'].append((env.now, self.tspec[tname].get('name', tname), real_tag(tag), info))
             if need > m.cap:
                 self.bump('need_above_total')
             m.scan()
@@ -93,11 +93,11 @@ class MaintRunner(core.Hooks):
                       f'{len(mt._active_requests)} active orders, reference has {len(m.queue)} / {len(m.active)}: '
                       f'queue {[(o["target"], o["tag"]) for o in m.queue]} active '
                       f'{[(o["target"], o["tag"]) for o in m.active]}', 'selection')
-        got_q = [(r.target.name, spec_tag(r.tag)) for r in mt._request_queue]
+        got_q = [(r.target.key, spec_tag(r.tag)) for r in mt._request_queue]
         if got_q != [(o['target'], o['tag']) for o in m.queue]:
             self.fail('C12.b', f'after {what}: queue order {got_q}, reference {[(o["target"], o["tag"]) for o in m.queue]}',
                       'queue_order')
-        got_a = sorted((r.target.name, str(spec_tag(r.tag))) for r in mt._active_requests)
+        got_a = sorted((r.target.key, str(spec_tag(r.tag))) for r in mt._active_requests)
         if got_a != sorted((o['target'], str(o['tag'])) for o in m.active):
             self.fail('C12.b', f'after {what}: active orders {got_a}, reference '
                       f'{sorted((o["target"], str(o["tag"])) for o in m.active)}', 'active_set')
@@ -111,7 +111,8 @@ class MaintRunner(core.Hooks):
 
         class HTarget(lib.Maintainable):
             def __init__(self, name, spec):
-                self.name = name
+                self.key = name
+                self.name = spec.get('name', name)      # display names need not be unique
                 self.spec = spec
                 self.n_dur = 0
 
@@ -122,7 +123,7 @@ class MaintRunner(core.Hooks):
                     v = d[self.n_dur % len(d)]
                     self.n_dur += 1
                     d = v
-                runner.hook_log.append(('duration', self.name, tag, runner.env.now, d))
+                runner.hook_log.append(('duration', self.key, tag, runner.env.now, d))
                 return d
 
             def get_work_order_capacity(self, tag):
@@ -131,22 +132,23 @@ class MaintRunner(core.Hooks):
             def get_work_order_cost(self, tag):
                 tag = spec_tag(tag)
                 c = self.spec['tags'][tag][2]
-                runner.hook_log.append(('cost', self.name, tag, runner.env.now, c))
+                runner.hook_log.append(('cost', self.key, tag, runner.env.now, c))
                 return c
 
             def start_work(self, tag):
                 tag = spec_tag(tag)
-                runner.hook_log.append(('start', self.name, tag, runner.env.now, None))
+                runner.hook_log.append(('start', self.key, tag, runner.env.now, None))
                 runner.on_hook(self, 'start', tag)
 
             def end_work(self, tag):
                 tag = spec_tag(tag)
-                runner.hook_log.append(('end', self.name, tag, runner.env.now, None))
+                runner.hook_log.append(('end', self.key, tag, runner.env.now, None))
                 runner.on_hook(self, 'end', tag)
 
         class HProcT(lib.PartProcessor):
             def __init__(self, name, spec, **kw):
-                super().__init__(name, **kw)
+                super().__init__(spec.get('name', name), **kw)
+                self.key = name
                 self.spec = spec
                 self.n_dur = 0
 
@@ -155,12 +157,12 @@ class MaintRunner(core.Hooks):
             get_work_order_cost = HTarget.get_work_order_cost
 
             def start_work(self, tag):
-                runner.hook_log.append(('start', self.name, spec_tag(tag), runner.env.now, None))
+                runner.hook_log.append(('start', self.key, spec_tag(tag), runner.env.now, None))
                 super().start_work(tag)
                 runner.on_hook(self, 'start', spec_tag(tag))
 
             def end_work(self, tag):
-                runner.hook_log.append(('end', self.name, spec_tag(tag), runner.env.now, None))
+                runner.hook_log.append(('end', self.key, spec_tag(tag), runner.env.now, None))
                 super().end_work(tag)
                 runner.on_hook(self, 'end', spec_tag(tag))
 
@@ -177,7 +179,7 @@ class MaintRunner(core.Hooks):
                 self.targets[t['n']] = HTarget(t['n'], t)
 
     def on_hook(self, tgt, kind, tag):
-        for h in self.tspec[tgt.name].get('hooks', ()):
+        for h in self.tspec[tgt.key].get('hooks', ()):
             if h['on'] == kind and h['tag'] == tag and self.hook_budget > 0:
                 self.hook_budget -= 1
                 self.bump('request_from_hook')
@@ -218,7 +220,7 @@ class MaintRunner(core.Hooks):
                           'query_count')
             o['t_start'], o['dur'] = env.now, durs[0][4]
             self.cost_total += costs[0][4]
-            self.exp_records['start_work_order'].append((env.now, tname, real_tag(tag), o['info']))
+            self.exp_records['start_work_order'].append((env.now, self.tspec[tname].get('name', tname), real_tag(tag), o['info']))
             self.stats['orders_started'] += 1
             if o['dur'] == 0:
                 self.bump('zero_duration_order')
@@ -234,7 +236,7 @@ class MaintRunner(core.Hooks):
                           f'target reported duration {o["dur"]} at start', 'duration')
             m.active.remove(o)
             m.util -= o['need']
-            self.exp_records['finish_work_order'].append((env.now, tname, real_tag(tag), o['info']))
+            self.exp_records['finish_work_order'].append((env.now, self.tspec[tname].get('name', tname), real_tag(tag), o['info']))
             self.stats['orders_finished'] += 1
             m.scan()
         else:
@@ -351,8 +353,10 @@ def gen_case(rng):
             dur = rng.choice((0, 0.25, 0.5, 1, 1, 2, 3))
             if rng.random() < 0.2:
                 dur = [rng.choice((0, 0.5, 1, 2)) for _ in range(2)]
-            tags[tg] = [dur, rng.choice((0, 0.5, 1, 1, 2, 4)), rng.choice((0, 1, 2.5))]
+            tags[tg] = [dur, rng.choice((0, 0.5, 1, 1, 2, 4)), rng.choice((0, 1, 2.5, -1.5))]
         t = {'n': f'T{i}', 'tags': tags, 'hooks': []}
+        if rng.random() < 0.2:
+            t['name'] = 'press'      # two different machines may carry the same name
         targets.append(t)
     for t in targets:
         if rng.random() < 0.3:
